@@ -44,12 +44,83 @@ def has_of(c, v):
     return any(k in json.dumps(c["schema"], default=str) for k in ('anyof', 'allof', 'noneof', 'oneof'))
 
 
+def directed(ctx, n):
+    """*of definitions that reach a mapping's sub-schema through containers (list `schema`, `items`, `valuesrules`, dict `schema`), on
+    documents whose innermost mappings carry unknown keys, under every kind of allow_unknown at the validator, field and definition level"""
+    import random
+    r = random.Random(ctx["seed"] + 909)
+    out = []
+    for i in range(max(150, n // 10)):
+        chain = [r.choice(['list', 'items', 'values', 'dict']) for _ in range(r.randrange(0, 3))]
+
+        def base():
+            b = {'type': 'dict', 'schema': {k: {'type': r.choice(['integer', 'string'])} for k in r.sample(['a', 'b', 'c'], r.randrange(1, 3))}}
+            k = r.random()
+            if k < 0.2:
+                b['allow_unknown'] = r.choice([True, False])
+            elif k < 0.3:
+                b['allow_unknown'] = {'type': 'integer'}
+            return b
+
+        def wrap(inner):
+            for c in reversed(chain):
+                if c == 'list':
+                    inner = {'type': 'list', 'schema': inner}
+                elif c == 'items':
+                    inner = {'type': 'list', 'items': [inner]}
+                elif c == 'values':
+                    inner = {'type': 'dict', 'valuesrules': inner}
+                else:
+                    inner = {'type': 'dict', 'schema': {'s': inner}}
+            return inner
+
+        def value():
+            v = {k: r.choice([1, 'v']) for k in r.sample(['a', 'b', 'c', 'zz'], r.randrange(0, 4))}
+            for c in reversed(chain):
+                if c == 'list':
+                    v = [v] if r.random() < 0.6 else [v, {'a': 1, 'q': 2}]
+                elif c == 'items':
+                    v = [v]
+                elif c == 'values':
+                    v = {'k': v}
+                else:
+                    v = {'s': v} if r.random() < 0.7 else {'s': v, 'unk': 1}
+            return v
+        defs = [wrap(base()) for _ in range(r.randrange(1, 4))]
+        rules = {r.choice(['anyof', 'allof', 'noneof', 'oneof']): defs}
+        if r.random() < 0.5:
+            rules['type'] = defs[0]['type']
+            for d in defs:
+                if r.random() < 0.5:
+                    del d['type']
+        k = r.random()
+        if k < 0.2:
+            rules['allow_unknown'] = r.choice([True, False])
+        cfg = {}
+        k = r.random()
+        if k < 0.25:
+            cfg['allow_unknown'] = True
+        elif k < 0.4:
+            cfg['allow_unknown'] = {'type': r.choice(['integer', 'string'])}
+        schema, doc = {'f': rules}, {'f': value()}
+        if r.random() < 0.3:
+            sub = {'type': 'dict', 'schema': schema}
+            if r.random() < 0.4:
+                sub['allow_unknown'] = r.choice([True, False])
+            schema, doc = {'w': sub}, {'w': doc}
+        if r.random() < 0.3:
+            doc['other'] = 1
+        out.append({"schema": schema, "config": cfg, "document": doc, "update": r.random() < 0.2})
+    return out
+
+
 def run(ctx):
-    return _vfamily.run_family(ctx, oracle, lambda d: "recount:" + d.split(" at ")[0][:20], model_compare, nontrivial=has_of,
+    return _vfamily.run_family(ctx, oracle, lambda d: "recount:" + d.split(" at ")[0][:20], model_compare, nontrivial=has_of, directed=directed,
                                rule="generated schemas with 0-3 definitions per *of rule (also nested in each other and in schema/items/"
                                     "valuesrules); recount oracle: each definition validated on its own by a fresh validator with inherited "
                                     "type/allow_unknown, same document/options/update; compared with error.info counts and definitions_errors; "
-                                    "plus Spec/Impl model diff restricted to *of errors. Non-trivial = distinct cases whose schema has an *of rule.")
+                                    "plus a directed family: definitions that reach a mapping's sub-schema through 0-2 containers, unknown keys in the innermost mappings, every "
+                                    "kind of allow_unknown at validator / field / definition level; plus Spec/Impl model diff restricted to *of errors. Non-trivial = distinct cases whose schema has an *of rule.")
 
 
 def replay(rp):
